@@ -1,7 +1,7 @@
 (* C13 — stream listeners frame correctly under any segmentation and pipelining
    (and the stream clause of C01: C01_stream_safe).
    Only statements; the model is Net/Framing.v, the proofs are in Net/FramingProofs.v. *)
-From Mos Require Import Base.Prelude Codec.Msg Net.Framing Net.FramingProofs.
+From Mos Require Import Base.Prelude Codec.Msg Net.Framing Net.FramingProofs Net.FramingTimed Net.FramingTimedProofs.
 From Coq Require Import Permutation.
 
 (* ---------------------------------------------------------------------------------------------------
@@ -129,6 +129,108 @@ Qed.
 Print Assumptions C01_stream_safe.
 
 (* ---------------------------------------------------------------------------------------------------
+   C13_deadline_*  (round 3: segmentation x TIME).  The readers of Net/FramingTimed.v carry their idle timer; a timed
+   segment (g, s) arrives g after the one before it (the first: g after the accept).
+
+   TCP / DoT (handleConn): the read deadline is re-armed once per MESSAGE, at the top of the loop, whatever the
+   bufio reader still holds.  For EVERY decoder verdict, bufio capacity >= 1, idle time, list of frames and EVERY
+   timed segmentation of their stream in which the last octet of each frame arrives less than [idle] after the last
+   octet of the frame before it (ft_paced; the first frame: after the accept) — whatever the cuts (inside the
+   prefix, inside bodies, whole frames followed by a partial one in the same segment) and however long the
+   connection has been open in total — the reader NEVER times out and hands over exactly [rd_expect ok frames]:
+   every frame once, in order. *)
+Theorem C13_deadline_tcp : forall (ok : list N -> bool) (cap idle : nat) (frames : list (list N)) (tsegs : list (nat * list N)),
+  1 <= cap ->
+  Forall (fun f => 1 <= length f /\ (N.of_nat (length f) < 65536)%N) frames ->
+  Forall (fun ts : nat * list N => snd ts <> []) tsegs ->
+  ft_octets tsegs = stream_of frames ->
+  ft_paced idle (ft_sizes frames) (ft_ogaps tsegs) = true ->
+  ft_tcp_run ok cap idle FtEveryMsg tsegs = Ok (ft_lift (rd_expect ok frames)) /\
+  (forallb ok frames = true -> ft_tcp_run ok cap idle FtEveryMsg tsegs = Ok (frames, FtNeedMore)).
+Proof.
+  intros ok cap idle frames tsegs Hc Hg Hne E Hp.
+  assert (ft_tcp_run ok cap idle FtEveryMsg tsegs = Ok (ft_lift (rd_expect ok frames))) as H.
+  { apply ft_tcp_paced; auto. eapply Forall_impl; [|exact Hg]. intros f [_ Hf]. exact Hf. }
+  split; [exact H|]. intros Ha. rewrite H. now rewrite (expect_all ok frames Ha).
+Qed.
+Print Assumptions C13_deadline_tcp.
+
+(* gnet (OnTraffic): the timer is re-armed once per READ EVENT.  Every timed segmentation in which every segment
+   arrives less than [idle] after the one before: never timed out, exactly [rd_expect ok frames] — in fact the
+   timed run IS the untimed one (second conjunct, for arbitrary octets). *)
+Theorem C13_idle_timer_gnet : forall (ok : list N -> bool) (idle : nat) (frames : list (list N)) (tsegs : list (nat * list N)),
+  Forall (fun f => 1 <= length f /\ (N.of_nat (length f) < 65536)%N) frames ->
+  Forall (fun ts : nat * list N => snd ts <> []) tsegs ->
+  ft_octets tsegs = stream_of frames ->
+  ft_gaps_below idle tsegs = true ->
+  ft_gnet_run ok idle tsegs = Ok (ft_lift (rd_expect ok frames)) /\
+  (forallb ok frames = true -> ft_gnet_run ok idle tsegs = Ok (frames, FtNeedMore)).
+Proof.
+  intros ok idle frames tsegs Hg Hne E Hb.
+  assert (ft_gnet_run ok idle tsegs = Ok (ft_lift (rd_expect ok frames))) as H by (apply ft_gnet_paced; auto).
+  split; [exact H|]. intros Ha. rewrite H. now rewrite (expect_all ok frames Ha).
+Qed.
+Print Assumptions C13_idle_timer_gnet.
+
+Theorem C13_idle_timer_gnet_any : forall (ok : list N -> bool) (idle : nat) (tsegs : list (nat * list N)),
+  Forall (fun ts : nat * list N => snd ts <> []) tsegs -> ft_gaps_below idle tsegs = true ->
+  ft_gnet_run ok idle tsegs = ft_lift_res (gnet_run ok (map snd tsegs)).
+Proof. exact ft_gnet_untimed. Qed.
+Print Assumptions C13_idle_timer_gnet_any.
+
+(* the per-message pacing implies the per-event one; hence ONE hypothesis for the instances the runner executes
+   (kind streamtimed: decoder = the model of UnpackMsg, bufio of 1024 octets, time in milliseconds) *)
+Theorem C13_deadline : forall (idle : nat) (frames : list (list N)) (tsegs : list (nat * list N)),
+  Forall (fun f => 1 <= length f /\ (N.of_nat (length f) < 65536)%N) frames ->
+  forallb dns_ok frames = true ->
+  Forall (fun ts : nat * list N => snd ts <> []) tsegs ->
+  ft_octets tsegs = stream_of frames ->
+  ft_paced_segs idle frames tsegs = true ->
+  ft_tcp_run_dns idle tsegs = Ok (frames, FtNeedMore) /\ ft_gnet_run_dns idle tsegs = Ok (frames, FtNeedMore).
+Proof.
+  intros idle frames tsegs Hg Ha Hne E Hp. split.
+  - apply (C13_deadline_tcp dns_ok cap1k idle frames tsegs cap1k_pos Hg Hne E Hp). exact Ha.
+  - apply (C13_idle_timer_gnet dns_ok idle frames tsegs Hg Hne E); [|exact Ha].
+    exact (ft_paced_gaps idle frames tsegs Hne E Hp).
+Qed.
+Print Assumptions C13_deadline.
+
+(* the VARIANT "re-arm the deadline only when the bufio reader is empty" (not what the code does) is refuted: a
+   client that is never silent for [idle], sending one whole frame followed by the first half of the next and the
+   rest one second later, is cut mid-frame by the deadline armed at the accept — the second query is never
+   decoded.  idle = 2000; segment 1 at 1500, segment 2 at 2500. *)
+Definition c13_stale_frames : list (list N) := [[1; 2; 3]; [4; 5; 6; 7]]%N.
+Definition c13_stale_segs : list (nat * list N) := [(1500, [0; 3; 1; 2; 3; 0; 4; 4]%N); (1000, [5; 6; 7]%N)].
+Theorem C13_rearm_when_drained_refuted :
+  exists (ok : list N -> bool) (cap idle : nat) (frames : list (list N)) (tsegs : list (nat * list N)),
+    1 <= cap /\
+    Forall (fun f => 1 <= length f /\ (N.of_nat (length f) < 65536)%N) frames /\
+    Forall (fun ts : nat * list N => snd ts <> []) tsegs /\
+    ft_octets tsegs = stream_of frames /\
+    ft_paced idle (ft_sizes frames) (ft_ogaps tsegs) = true /\
+    forallb ok frames = true /\
+    ft_tcp_run ok cap idle FtWhenDrained tsegs = Ok ([[1; 2; 3]%N], FtTimedOut) /\
+    ft_tcp_run ok cap idle FtEveryMsg tsegs = Ok (frames, FtNeedMore).
+Proof.
+  exists (fun _ => true), 1024, 2000, c13_stale_frames, c13_stale_segs.
+  split; [lia|]. split; [unfold c13_stale_frames; repeat constructor; cbn; lia|].
+  split; [unfold c13_stale_segs; repeat constructor; discriminate|].
+  repeat split; vm_compute; reflexivity.
+Qed.
+Print Assumptions C13_rearm_when_drained_refuted.
+
+(* C13_slow_frame_note.  What the per-message deadline does NOT give (outside the property, which does not speak of
+   time): ONE frame trickling in over more than [idle] is cut by handleConn although no single gap reaches [idle];
+   gnet, whose timer is reset by every read event, decodes it. *)
+Example C13_slow_frame_note :
+  let segs := [(700, [0; 4]%N); (700, [9]%N); (700, [9]%N); (700, [9; 9]%N)] in
+  ft_gaps_below 2000 segs = true /\
+  ft_paced 2000 (ft_sizes [[9; 9; 9; 9]%N]) (ft_ogaps segs) = false /\
+  ft_tcp_run (fun _ => true) 1024 2000 FtEveryMsg segs = Ok ([], FtTimedOut) /\
+  ft_gnet_run (fun _ => true) 2000 segs = Ok ([[9; 9; 9; 9]%N], FtNeedMore).
+Proof. vm_compute. auto. Qed.
+
+(* ---------------------------------------------------------------------------------------------------
    non-vacuity *)
 Definition ex_frames : list (list N) := [[1; 2; 3]; [4]; [5; 6]]%N.
 Definition ex_ok (b : list N) : bool := match b with 99%N :: _ => false | [] => false | _ => true end.
@@ -161,3 +263,16 @@ Example C13_example_over_limit :
   infl_run 2 infl_init [InflArrive 0; InflArrive 1; InflArrive 2; InflFinish 0; InflArrive 3; InflArrive 4; InflFinish 1; InflFinish 3] =
     Some (mkInfl 0 [], [InflAccepted 0; InflAccepted 1; InflRefused 2; InflAnswer 0; InflAccepted 3; InflRefused 4; InflAnswer 1; InflAnswer 3]).
 Proof. vm_compute. auto. Qed.
+
+(* the hypotheses of C13_deadline are met although the connection has been open for 3 x idle/2 + ...: whole frame +
+   partial frame per segment, a cut inside a prefix; and a gap >= idle does time out (both readers) *)
+Example C13_example_deadline :
+  let segs := [(1500, [0; 3; 1; 2; 3; 0]%N); (1500, [1; 4; 0; 2; 5]%N); (1500, [6]%N)] in
+  ft_octets segs = stream_of ex_frames /\
+  ft_paced 2000 (ft_sizes ex_frames) (ft_ogaps segs) = true /\
+  ft_tcp_run ex_ok 4 2000 FtEveryMsg segs = Ok (ex_frames, FtNeedMore) /\
+  ft_gnet_run ex_ok 2000 segs = Ok (ex_frames, FtNeedMore) /\
+  ft_tcp_run ex_ok 4 2000 FtWhenDrained segs = Ok ([[1; 2; 3]%N], FtTimedOut) /\
+  ft_tcp_run ex_ok 4 2000 FtEveryMsg [(1500, [0; 3; 1; 2; 3]%N); (2000, [0; 1; 4]%N)] = Ok ([[1; 2; 3]%N], FtTimedOut) /\
+  ft_gnet_run ex_ok 2000 [(1500, [0; 3; 1; 2; 3]%N); (2000, [0; 1; 4]%N)] = Ok ([[1; 2; 3]%N], FtTimedOut).
+Proof. vm_compute. repeat split; reflexivity. Qed.
